@@ -38,6 +38,7 @@ type stats struct {
 	Archive      int            `json:"heights_revalidated_from_archive"`
 	Unusual      int            `json:"unusually_encoded_transactions_offered"`
 	VoteFlips    int            `json:"vote_window_closed_between_caching_and_proposing"`
+	Followed     int            `json:"heights_followed_in_sync_mode_from_the_tip"`
 	ForgedTwice  int            `json:"forged_signature_transactions_offered_twice"`
 	CertVariants int            `json:"nodes_given_a_commit_certificate_with_another_signer_set"`
 	Kinds        map[string]int `json:"tx_kinds_offered"`
@@ -118,6 +119,18 @@ func main() {
 			}
 			nodes = append(nodes, n)
 		}
+		// a node that follows the chain in SYNC mode, one height behind the tip: it takes each block from node 0's archive at the
+		// moment node 0 is at its tip (node 0 then still holds ITS OWN commit certificate of that block, which the next block's
+		// header need not embed)
+		var follower *sim.CNode
+		if *prop != 3 {
+			f, ferr := sim.NewCNode(g.State(), 2, nil)
+			if ferr != nil {
+				panic(ferr)
+			}
+			follower = f
+			follower.C.Syncing().Store(true) // a node that is catching up
+		}
 		gen := sim.NewTxGen(r.Fork(), nKeys)
 		gen.Stable = 2 // two validators never leave: the committee stays alive
 		// the last chain is a long one: it runs through the checkpoint height (every 100th block carries a checkpoint in its
@@ -160,12 +173,12 @@ func main() {
 			}
 			// a transfer under an ed25519 / secp256k1 key: honest, or with a forged signature that the leader's mempool sees twice
 			// (submitted, refused, submitted again): a refusal must not be remembered as an acceptance
-			if r.Chance(35) {
+			if r.Chance(60) {
 				k := otherKeys[r.Intn(len(otherKeys))]
 				t, terr := fsm.NewSendTransaction(k, crypto.NewAddress(sim.BLSKey(r.Intn(nKeys)).Addr), 100+uint64(b), 1, 1, 10000, h, fmt.Sprintf("o%d", b))
 				if terr == nil {
 					bz, _ := lib.Marshal(t)
-					if r.Chance(60) {
+					if r.Chance(35) {
 						tx := new(lib.Transaction)
 						_ = lib.Unmarshal(bz, tx)
 						tx.Signature.Signature[r.Intn(len(tx.Signature.Signature))] ^= 0x40
@@ -287,7 +300,7 @@ func main() {
 						st.Restarts++
 					}
 					// a speculative validation of a tampered proposal that must leave no trace
-					if r.Chance(50) {
+					if r.Chance(70) {
 						bad := sim.CloneQC(qc)
 						bb := new(lib.Block)
 						_ = lib.Unmarshal(bad.Block, bb)
@@ -296,10 +309,32 @@ func main() {
 						} else {
 							bb.BlockHeader.Time++
 						}
+						// or: one transaction's signature corrupted (the block is then invalid for that reason alone)
+						if len(bb.Transactions) > 0 && r.Bool() {
+							_ = lib.Unmarshal(qc.Block, bb)
+							k := r.Intn(len(bb.Transactions))
+							for j, raw := range bb.Transactions { // prefer a transaction under a non-BLS key (other verification paths)
+								t := new(lib.Transaction)
+								if lib.Unmarshal(raw, t) == nil && t.Signature != nil && len(t.Signature.PublicKey) != crypto.BLS12381PubKeySize {
+									k = j
+								}
+							}
+							tx := new(lib.Transaction)
+							if lib.Unmarshal(bb.Transactions[k], tx) == nil && tx.Signature != nil && len(tx.Signature.Signature) > 0 {
+								tx.Signature.Signature[r.Intn(len(tx.Signature.Signature))] ^= 0x20
+								bb.Transactions[k], _ = lib.Marshal(tx)
+							}
+						}
 						_, _ = bb.BlockHeader.SetHash()
 						bad.Block, _ = lib.Marshal(bb)
 						bad.BlockHash = bb.BlockHeader.Hash
-						_, _ = n.C.ValidateProposal(prop.RCBuildHeight, bad, sim.NoEvidence())
+						// validated twice: the verdict on one and the same proposal must not depend on having seen it before
+						_, e1 := n.C.ValidateProposal(prop.RCBuildHeight, sim.CloneQC(bad), sim.NoEvidence())
+						_, e2 := n.C.ValidateProposal(prop.RCBuildHeight, sim.CloneQC(bad), sim.NoEvidence())
+						if (e1 == nil) != (e2 == nil) || (e1 != nil && e2 != nil && e1.Code() != e2.Code()) {
+							sim.Direct(*outDir, map[string]any{"finding": "verdict-depends-on-earlier-execution", "kind": "the same tampered proposal is judged differently the second time it is validated",
+								"height": h, "first": fmt.Sprint(e1), "second": fmt.Sprint(e2)})
+						}
 						st.Specul++
 					}
 					if err := n.Deliver(sim.CloneQC(qc), false); err != nil {
@@ -327,6 +362,19 @@ func main() {
 				}
 			}
 			lit := fmt.Sprintf("mkPath %d%%N %s", h, sim.CoqList(items))
+			if follower != nil {
+				nodes[0].Enter()
+				if tipQC, lerr := nodes[0].C.LoadCertificate(h); lerr == nil && tipQC != nil {
+					if derr := follower.Deliver(sim.CloneQC(tipQC), true); derr != nil {
+						sim.Direct(*outDir, map[string]any{"finding": "served-block-rejected-by-following-node", "kind": "a node following the chain in sync mode cannot validate the block the archive serves at its tip",
+							"height": h, "error": derr.Error()})
+						follower.Close()
+						follower = nil
+					} else {
+						st.Followed++
+					}
+				}
+			}
 			cw.Add(lit, map[string]any{"kind": "block", "height": h, "paths": names, "txs": len(blk.Transactions), "gomaxprocs": procs})
 			st.Cases++
 			st.Blocks++
@@ -346,6 +394,7 @@ func main() {
 			if ferr != nil {
 				panic(ferr)
 			}
+			fresh.C.Syncing().Store(true) // a node that is catching up
 			okAll := true
 			for h := uint64(1); h < top; h++ {
 				nodes[0].Enter()
@@ -373,6 +422,9 @@ func main() {
 				}
 			}
 			fresh.Close()
+		}
+		if follower != nil {
+			follower.Close()
 		}
 		for k, v := range gen.Counts {
 			st.Kinds[k] += v
